@@ -1,7 +1,7 @@
 """C20 — cached and reloaded objects always reflect their current logical state.
 
-Events : return values of public methods / properties of Orbit, System, LibrationPoint and CenterManifold along
-         operation histories (including save -> load -> continue).
+Events : return values of public methods / properties of Orbit, System, LibrationPoint, CenterManifold and Manifold
+         along operation histories (including save -> load -> continue and delete -> gc -> re-create).
 Oracle : cache-free twin (hmon/oracles/twin.py): the same history replayed on a freshly built object while every
          memo is bypassed (get_or_create interposed, pipeline registry private, attribute memos cleared).
          For the id()-keyed process-wide caches: a direct key/owner invariant and the SciPy CR3BP flow.
@@ -33,6 +33,7 @@ MECH_B = "trajectory-attribute-not-updated-when-propagate-served-from-memo"
 MECH_C = "correct-memo-served-although-orbit-state-changed-since-it-was-made"
 MECH_D = "cm-hamiltonian-degree-switch-skipped-on-memo-hit"
 MECH_E = "get-center-manifold-returns-memo-whose-degree-was-changed"
+MECH_F = "scale-factor-memo-key-ignores-its-arguments"
 MECH_G = "stability-memo-entries-alias-one-mutable-pipeline"
 MECH_H = "manifold-memo-not-invalidated-when-generating-orbit-changes"
 MECH_I = "manifold-result-attribute-not-updated-when-compute-served-from-memo"
@@ -55,6 +56,7 @@ class Env:
         self._n = 0
         self._pref = {}
         self._xref = {}
+        self._pexact = {}
 
     def system_b(self):
         if self.sb is None:
@@ -73,6 +75,7 @@ class Env:
             o.correct()
             self._pref[A] = round(float(o.period), 6)
             self._xref[A] = np.array(o.initial_state, dtype=float)
+            self._pexact[A] = float(o.period)
         return self._pref[A]
 
     def close(self):
@@ -197,21 +200,32 @@ class OrbitFamily:
         return False
 
     # -- classifier over the witness
+    @staticmethod
+    def classify_correct(ops, steps, k):
+        """Culprit step k is a correct(options) call: which memo defect (if any) explains it?"""
+        op = ops[steps[k].op]
+        hit = [key for (t, h, key) in steps[k].events if t == "correct" and h]
+        if not hit:
+            return None
+        j = next((i for i in range(k) if not isinstance(steps[i].real, tw.Exc) for (t, h, key) in steps[i].events
+                  if t == "correct" and not h and key == hit[0]), None)   # the step that stored the entry
+        if j is None:
+            return None
+        creator = ops[steps[j].op]
+        if creator.kind == "correct" and creator.arg != op.arg:
+            return MECH_A          # entry created for other option values served for these
+        if creator.arg == op.arg and k >= 1 and steps[k - 1].fp_real[:2] != steps[j].fp_real[:2]:
+            return MECH_C          # same options, but (initial_state, period) changed since: neither re-run nor re-applied
+        return None
+
     def classify(self, res):
         steps, n = res["steps"], res["mismatch"]
         k = tw.first_divergence(self, steps, n, RTOL)
         op = self.ops[steps[k].op]
         if op.kind == "correct":
-            hit = [key for (t, h, key) in steps[k].events if t == "correct" and h]
-            if hit:
-                j = next((i for i in range(k) if not isinstance(steps[i].real, tw.Exc) for (t, h, key) in steps[i].events
-                          if t == "correct" and not h and key == hit[0]), None)   # the step that stored the entry
-                if j is not None:
-                    creator = self.ops[steps[j].op]
-                    if creator.kind == "correct" and creator.arg != op.arg:
-                        return k, MECH_A          # entry created for other option values served for these
-                    if creator.arg == op.arg and k >= 1 and steps[k - 1].fp_real[:2] != steps[j].fp_real[:2]:
-                        return k, MECH_C          # same options, but (initial_state, period) changed since: neither re-run nor re-applied
+            mech = self.classify_correct(self.ops, steps, k)
+            if mech:
+                return k, mech
         if op.kind == "propagate" and steps[k].own_hit and self.ops[steps[n].op].kind == "trajectory" and n > k:
             last_exec = next((i for i in range(k - 1, -1, -1) if self.ops[steps[i].op].kind == "propagate"
                               and any(t == "propagate" and not h for (t, h, _) in steps[i].events)), None)
@@ -242,9 +256,9 @@ class ManifoldFamily:
             self._add(Op(f"m.compute_{v}", self._compute(v), mutates=True, memo_tag=MTAG, kind="m_compute", arg=v))
         self._add(Op("m.trajectories", lambda h: self._trajs(h["m"].trajectories), kind="m_read"))
         self._add(Op("m.result", lambda h: self._res(h["m"].result), kind="m_read"))
-        self._add(Op("o.set_period_half", orbit_family.ops["set_period_half"].fn, mutates=True, kind="o_mut"))
-        self._add(Op("o.set_period_P", orbit_family.ops["set_period_P"].fn, mutates=True, kind="o_mut"))
-        self._add(Op("o.correct_D", orbit_family.ops["correct_D"].fn, mutates=True, memo_tag="correct", kind="o_mut"))
+        self._add(Op("o.set_period_half", orbit_family.ops["set_period_half"].fn, mutates=True, kind="set_period"))
+        self._add(Op("o.set_period_P", orbit_family.ops["set_period_P"].fn, mutates=True, kind="set_period"))
+        self._add(Op("o.correct_D", orbit_family.ops["correct_D"].fn, mutates=True, memo_tag="correct", kind="correct", arg="D"))
         self._add(Op("o.period", orbit_family.ops["period"].fn))
         self._add(Op("m.saveload", self._saveload, twin_fn=lambda h: "reloaded", kind="saveload"))
 
@@ -276,8 +290,9 @@ class ManifoldFamily:
         return "reloaded"
 
     def fresh(self, params, twin):
+        # generating orbit built from a corrected state with its exact period (no correct() call: no memo is made here)
         h = self.of.fresh({"A": params["A"], "start": "ref"}, twin)
-        h["o"].correct()
+        h["o"].period = self.env._pexact[params["A"]]
         h["m"] = h["o"].manifold(stable=params.get("stable", False), direction="positive")
         return h
 
@@ -315,6 +330,8 @@ class ManifoldFamily:
         steps, n = res["steps"], res["mismatch"]
         k = tw.first_divergence(self, steps, n, RTOL)
         op = self.ops[steps[k].op]
+        if op.kind == "correct":
+            return k, OrbitFamily.classify_correct(self.ops, steps, k)   # defect of the generating orbit, not of the manifold
         if op.kind != "m_compute":
             return k, None
 
@@ -363,6 +380,8 @@ class PointFamily:
             self._add(Op(f"{p}.is_stable", lambda h, p=p: bool(h[p].is_stable), memo_tag=STAG, kind="stability", arg="D"))
             for v in ("D", "B"):
                 self._add(Op(f"{p}.compute_stability_{v}", self._stab(p, v), memo_tag=STAG, kind="stability", arg=v))
+        for p in ("pa", "pb"):
+            self._add(Op(f"{p}.saveload", self._saveload(p), twin_fn=lambda h: "reloaded", kind="saveload"))
         for p in ("pa", "pc"):
             self._add(Op(f"{p}.gamma", lambda h, p=p: float(h[p].dynamics.gamma), memo_tag="gamma"))
             for n in (2, 3):
@@ -375,6 +394,9 @@ class PointFamily:
                              memo_tag="center_manifold", kind="gcm_set", arg=(d, e)))
             self._add(Op(f"{p}.hamiltonian(4)", lambda h, p=p: _ham(h[p].hamiltonian(4, "center_manifold_real")),
                          memo_tag="hamiltonian", kind="point_ham", arg=4))
+            for a in ((3.5, 2.5), (3.0, 2.4)):
+                self._add(Op(f"{p}.dynamics.scale_factor{a}", lambda h, p=p, a=a: tuple(map(float, h[p].dynamics.scale_factor(*a))),
+                             memo_tag="scale_factor", kind="scale_factor", arg=a))
 
     def _add(self, op):
         self.ops[op.name] = op
@@ -383,6 +405,15 @@ class PointFamily:
         def fn(h):
             r = h[p].dynamics.compute_stability(options=self.eopts[v])
             return {"eigenvalues": tuple(np.array(e) for e in r.eigenvalues), "is_stable": bool(r.is_stable)}
+        return fn
+
+    def _saveload(self, p):
+        def fn(h):
+            path = self.env.path("point")
+            h[p].save(path)
+            h[p] = type(h[p]).load(path)
+            os.remove(path)
+            return "reloaded"
         return fn
 
     @staticmethod
@@ -424,6 +455,11 @@ class PointFamily:
                     return True
                 if a.kind == "stability" and b.kind == "stability" and a.arg != b.arg and a.name[:2] == b.name[:2]:
                     return True
+                if a.kind == "saveload" and b.kind != "saveload" and a.name[:2] == b.name[:2]:
+                    return True
+                if b.kind == "scale_factor" and a.name[:2] == b.name[:2] and a.name != b.name and (
+                        a.kind == "scale_factor" or "normal_form_transform" in a.name):
+                    return True
         return False
 
     def classify(self, res):
@@ -438,6 +474,12 @@ class PointFamily:
             return n, MECH_E
         if op.kind == "point_ham" and cm_hit and s.twin["degree"] == op.arg and s.real["degree"] != op.arg:
             return n, MECH_E
+        sf_key = next((key for (t, h, key) in s.events if t == "scale_factor" and h), None)
+        if sf_key is not None:
+            j = next((i for i in range(n) if not isinstance(steps[i].real, tw.Exc) for (t, h, k2) in steps[i].events
+                      if t == "scale_factor" and not h and k2 == sf_key), None)
+            if j is not None and steps[j].op != s.op and "scale_factor" in (op.kind, self.ops[steps[j].op].kind):
+                return n, MECH_F                  # the one scale_factor entry, made for other (lambda1, omega1), served here
         if op.kind == "stability" and s.own_hit:
             last_exec = next((i for i in range(n - 1, -1, -1) if steps[i].op[:2] == p and self.ops[steps[i].op].kind == "stability"
                               and any(t == STAG and not h for (t, h, _) in steps[i].events)), None)
@@ -546,7 +588,6 @@ class SystemFamily:
         self.env = env
         self.ops = {}
         self.holder = {"sa": env.sa, "sb": env.system_b()}
-        self.first_point = {}
         combos_a = [("adaptive", 8, 1), ("adaptive", 8, -1), ("fixed", 4, 1), ("fixed", 6, 1)]
         combos_b = [("adaptive", 8, 1)]
         for s, combos in (("sa", combos_a), ("sb", combos_b)):
@@ -633,6 +674,7 @@ class Explorer:
         self.ctx, self.spy = ctx, spy
         self.twin_memo = {}
         self.ok_obs = {}
+        self.n_obs = {}
         self.n_hist = 0
         self.sampled = set()
 
@@ -656,6 +698,7 @@ class Explorer:
             key = (fam.name, s.op)
             good = not isinstance(s.real, tw.Exc) and not isinstance(s.twin, tw.Exc)
             self.ok_obs[key] = self.ok_obs.get(key, False) or good
+            self.n_obs[key] = self.n_obs.get(key, 0) + 1
         n = res["mismatch"]
         mech, k = None, None
         if n is not None:
@@ -741,14 +784,16 @@ def point_workload(ctx, ex, env):
         ["pa.get_center_manifold(4).degree", "pa.get_center_manifold(4).degree=5", "pa.hamiltonian(4)",
          "pa.get_center_manifold(5).degree", "pc.get_center_manifold(4).degree"],
     ]
+    subs.append(["pa.dynamics.scale_factor(3.5, 2.5)", "pa.dynamics.scale_factor(3.0, 2.4)", "pa.normal_form_transform", "pa.saveload"])
     if not ctx.quick:
         subs.append(["pc.eigenvalues", "pc.compute_stability_B", "pa.compute_stability_B", "pb.compute_stability_B", "pb.is_stable"])
     for letters in subs:
         for h in exhaustive(letters, L):
             work.append(("exhaustive", h))
     letters = list(fam.ops)
+    w = [0.15 if fam.ops[n].kind == "scale_factor" else 1.0 for n in letters]   # (poisons the point: rare in walks)
     for _ in range(ctx.pick(60, 800)):
-        work.append(("walk", walk(rng, letters, None, 8, 15)))
+        work.append(("walk", walk(rng, letters, w, 8, 15)))
     for i, (cls, h) in enumerate(work):
         if not ctx.mine(i):
             continue
@@ -878,7 +923,30 @@ def id_reuse(ctx, ex, env):
                   lambda: {"mu": mu, "x": x, "residual": g})
         del s, p, cm, s2, p2, cm2
         gc.collect()
-    ctx.note("n_id_values_recycled_by_the_allocator", reused)
+    # systems / points that nothing retains (no pipeline was built for them): their ids do get recycled
+    for it in range(ctx.pick(40, 400)):
+        if not ctx.mine(it):
+            continue
+        mu = float(rng.uniform(0.004, 0.09))
+        s = System.from_mu(mu)
+        p = s.get_libration_point(1 + it % 2)
+        with spy.real_step():
+            real = {"mu": float(s.mu), "position": np.array(p.position), "cn2": float(p.dynamics.cn(2)), "cn3": float(p.dynamics.cn(3)),
+                    "modes": tuple(p.dynamics.linear_modes), "energy": float(p.energy)}
+        for k, v in (("point", id(p)), ("system", id(s))):
+            reused += int(v in seen_ids[k])
+            seen_ids[k].add(v)
+        with spy.twin_step():
+            s2 = System.from_mu(mu)
+            p2 = s2.get_libration_point(1 + it % 2)
+            twin = {"mu": float(s2.mu), "position": np.array(p2.position), "cn2": float(p2.dynamics.cn(2)), "cn3": float(p2.dynamics.cn(3)),
+                    "modes": tuple(p2.dynamics.linear_modes), "energy": float(p2.energy)}
+        ok, rel, where = tw.compare(real, twin, RTOL)
+        ctx.case("idreuse:point", [mu, 1 + it % 2], nontrivial=True)
+        ctx.check(ok, "idreuse: values of a newly created object belong to its own parameters",
+                  lambda: {"mu": mu, "where": where, "real": tw.brief(real), "twin": tw.brief(twin)})
+        del s, p, s2, p2
+        gc.collect()
     # orbits: same id()-recycling pattern on the cheapest object
     prev = None
     for it in range(ctx.pick(9, 60)):
@@ -897,6 +965,7 @@ def id_reuse(ctx, ex, env):
         prev = A
         del o
         gc.collect()
+    ctx.note("n_id_values_recycled_by_the_allocator", reused)
     # key/owner invariant of the process-wide id()-keyed caches
     bad = []
     for (idk, fwd, flip), disp in list(_DirectedSystem._rhs_cache.items()):
@@ -937,11 +1006,13 @@ def _setup(ctx):
     spy = tw.CacheSpy()
     spy.install()
     env = Env(ctx, spy)
+    for A in AMPS:                      # reference periods / corrected states, computed outside any monitored step
+        env.p_ref(A)
     return spy, env, Explorer(ctx, spy)
 
 
 def run(ctx):
-    ctx.note("rule", "case = one operation history on one family (orbit | point | cm | system | idreuse); generated bounded-"
+    ctx.note("rule", "case = one operation history on one family (orbit | point | cm | manifold | system | idreuse); generated bounded-"
                      "exhaustively over reduced alphabets (length <= 3 quick / 4 thorough, one 4-letter alphabet to length 4) and "
                      "as seeded random walks of length 8-15; non-trivial = a logical mutation (or save/load) is followed by a "
                      "read of the same object (point: a memo-served request follows a conflicting one; system: a repeated call); "
@@ -965,8 +1036,9 @@ def run(ctx):
     finally:
         spy.uninstall()
         env.close()
-    never_ok = sorted(f"{f}:{o}" for (f, o), good in ex.ok_obs.items() if not good and not o.endswith("correct_X")
-                      and not o.startswith(("pb.linear_modes", "pb.normal_form_transform")))
+    # an operation that raised on BOTH sides every time it was tried was never really compared (harness error?)
+    never_ok = sorted(f"{f}:{o}" for (f, o), good in ex.ok_obs.items() if not good and ex.n_obs[(f, o)] >= 5
+                      and not o.endswith("correct_X") and not o.startswith(("pb.linear_modes", "pb.normal_form_transform")))
     if never_ok:
         ctx.mark_inconclusive(f"operations that never returned a value on both sides: {never_ok[:6]}")
     ctx.note("memo_hits_by_tag", dict(spy.hits.most_common(20)))
